@@ -39,6 +39,7 @@ func init() {
 			{ID: "C11-R13", Title: "the error of Config.init reaches the caller of Eval/EvalCode/Call", Floor: 3, Run: initErrorReachesTheCaller},
 			{ID: "C11-R14", Title: "dotted names are resolved one module per element", Floor: 1, Run: pathDescentAdvances},
 			{ID: "C11-R15", Title: "member builtins point back at the module that holds them, unconditionally", Floor: 1, Run: membersPointBackUnconditionally},
+			{ID: "C11-R16", Title: "the reset before RunCode is decided by what is loaded", Floor: 1, Run: resetLooksAtWhatIsLoaded},
 		},
 	})
 }
